@@ -74,6 +74,8 @@ func TestCheck(t *testing.T) {
 		lastCertain := -1 // latest index at which the baseline was certainly reset (raised / cleared)
 		prevB := int64(0)
 		resets, raises, lowerings := 0, 0, 0
+		zeroLeft := 0
+		lastProbe := -1 // gradient: latest index at which a probe (not a sample that measured nothing) cleared the baseline
 		viol := func(sig string, i int, extra rt.J) {
 			lo := i - 15
 			if lo < 0 {
@@ -94,6 +96,16 @@ func TestCheck(t *testing.T) {
 				}
 			}
 			rtt := level*10000 + int64(i) // unique
+			if zeroLeft > 0 {
+				zeroLeft--
+				rtt = 0
+			} else if spec.Kind == "gradient" && !pinned && r.IntN(150) == 0 {
+				// a short run of samples that measured nothing (what drop-only windows hand on): they leave the baseline unset -
+				// which is allowed - and change nothing about when the next probe is due
+				zeroLeft = 1 + r.IntN(3)
+				rtt = 0
+				rt.Count("gradient_runs_of_zero_rtt_samples", 1)
+			}
 			est := l.EstimatedLimit()
 			ests = append(ests, est)
 			inflight := est
@@ -112,14 +124,25 @@ func TestCheck(t *testing.T) {
 			where[rtt] = i
 			rt.Count("samples", 1)
 			b := nl.RTTNoLoad()
-			if b == 0 {
+			if b == 0 && rtt == 0 {
+				// unset because the sample itself measured nothing: a reset of the baseline like any other, but not a probe
 				if prevB != 0 {
 					resets++
+				}
+				lastCertain, lastMaybe, K, prevB = i, i, i+1, 0
+				continue
+			}
+			if b == 0 {
+				// (Gradient: a sample with a positive RTT that leaves the baseline unset was a probe, also when the baseline
+				// was unset before it - e.g. right after samples that measured nothing)
+				if prevB != 0 || (spec.Kind == "gradient" && rtt > 0) {
+					resets++
 					if spec.Kind == "gradient" {
-						if spec.ProbeInt != limit.ProbeDisabled && i-lastCertain < spec.ProbeInt {
-							viol("premature-reset", i, rt.J{"since_last_reset": i - lastCertain, "probe_interval": spec.ProbeInt})
+						if spec.ProbeInt != limit.ProbeDisabled && i-lastProbe < spec.ProbeInt {
+							viol("premature-reset", i, rt.J{"since_last_probe": i - lastProbe, "probe_interval": spec.ProbeInt})
 							return
 						}
+						lastProbe = i
 						if spec.ProbeInt == limit.ProbeDisabled {
 							viol("reset-although-probing-disabled", i, rt.J{})
 							return
